@@ -18,7 +18,7 @@ func (c08) Size(tier string) Size {
 	if tier == "thorough" {
 		return Size{Batches: 32, Cases: 9000}
 	}
-	return Size{Batches: 8, Cases: 1500}
+	return Size{Batches: 16, Cases: 3000}
 }
 func (c08) Rule() string {
 	return "case = every URL of C07's generator that the parser accepts (IDs, page values, filter labels and filter strings with space & ? # % + /, nested and/or filter trees, field-less types): s = String(); u2 = parse(s); s2 = u2.String(); then K permutations of the ORIGINAL raw URL (order of differently named parameters, order of names inside fields[...] and include lists, inserted empty list items; quick 4, thorough 8) each parsed and stringified. Oracle: u2 exists; fragments, resource type and ID, relationship, field selection (per type, as a set), sorting rules (sequence), page parameters of collection URLs, filter label and filter tree equal between u and u2; s2 == s; every permutation gives s. Non-trivial = accepted URL with >= 2 parameters or a reserved character; distinct = raw URL + schema hash."
